@@ -611,6 +611,16 @@ def r08c(P, R):
                 n += 1
                 a0 = pv.atoms(c["args"][0])
                 ok = has_call(a0, "FileStore::add_file")
+                if not ok and f.path.endswith("FileStore::add_file"):
+                    # the store announces the index itself: fine when what it announces is what it returns
+                    tail = f.body.get("b", {}).get("tail") if isinstance(f.body, dict) else None
+                    same = tail is not None and _root_local(tail) is not None and _root_local(tail) == _root_local(c["args"][0])
+                    if same:
+                        R.holds("R08-c", "file-index-source:%s#%d" % (short(f.path), n), "add_file announces the index it returns", loc=f.loc())
+                    else:
+                        R.undecided("R08-c", "file-index-source:%s#%d" % (short(f.path), n), "add_file sets the current file itself; whether the value is the "
+                                    "index it returns was not recognised", loc=f.loc())
+                    continue
                 if not ok:
                     # the index arrives through a parameter of a helper: look one level up, at what the callers pass
                     pnames = [pv.params.get(b.get("local")) if b.get("k") == "Binding" else None for b in f.params]
